@@ -74,6 +74,7 @@ REQUIRED_COUNTERS = {
     'hook_refuse_identity': 100, 'hook_expected_ignored': 10,
     'login_cells': 10, 'routes_checked': 1,
     'c14c_interleavings': 1000, 'c14c_refused_request_left_nothing': 300,
+    'c14c_logout_cells': 16,
 }
 SHARD_TIMEOUT = {'quick': 600, 'thorough': 1800}
 
